@@ -3,7 +3,10 @@
 A bandit with an arbitrary prior life (training, arm changes, warm start, queries) and a freshly constructed
 bandit with the same configuration *and seed* and the old bandit's current arm list are both given fit(D)
 from the same random-stream position (all generator objects grafted, aliasing preserved); a seeded
-continuation is then run on both and the full output streams are compared bit-for-bit, plus cold_arms."""
+continuation is then run on both and the full output streams are compared bit-for-bit, plus cold_arms.
+
+As built: Extra scenario: the caller re-uses its training arrays (overwrites them in place with D, same shape) and calls fit again; prior histories often end with add_arm + warm_start.
+"""
 from mon import env  # noqa: F401
 import copy
 
